@@ -29,7 +29,16 @@ where
     F: Fn(f64) -> f64,
 {
     let multiplier = 10_f64.powf(precision as f64);
-    fun(num * multiplier) / multiplier
+    let scaled = num * multiplier;
+    let rounded = fun(scaled) / multiplier;
+    // When `10^precision` (or the scaled number, or the scaling back) leaves the range of `f64`,
+    // the number has no digit at that precision to round: it is returned unchanged instead of
+    // NaN (which callers turn into 0.0) or an infinity.
+    if multiplier.is_finite() && multiplier != 0.0 && scaled.is_finite() && rounded.is_finite() {
+        rounded
+    } else {
+        num
+    }
 }
 
 #[derive(Debug, Clone)]
